@@ -45,6 +45,8 @@ CHECKS = {
          "deterministic simulation used as closed-world harness: independent reference binder/encoder for google.api.http over seeded messages"),
  "C08": ("exploration", "I/O segmentation is the schedule: every scenario is run atomically and under drawn segmentations of deliveries, handler read sizes, handler writes/flushes and scheduling policies; metamorphic equality of handler-visible request bytes and canonical client outcome.",
          "deterministic simulation: atomic-vs-segmented differential under seeded I/O schedules"),
+ "C20": ("exploration", "Same Plan and schedule against seven ways of supplying one schema to NewTranscoder (by name, generated descriptor, fresh protodesc file, private registry with google.api.http as a dynamic extension, no parent file, NotFound resolver alone and combined); canonical outcomes and backend views must be equal. vanguardgrpc.NewTranscoder is not covered (grpc-go's handler transport cannot be scheduled).",
+         "deterministic simulation: metamorphic same-plan execution across schema provenances"),
 }
 REASON_PENDING = "check not built yet in this round (claimed in DESIGN.md; will be added)"
 
